@@ -1770,4 +1770,24 @@ example : observeNoFields (run (initState .compound []) kfSteps).1 0 = observeNo
 example : preparedOf (run (initState .compound []) kfSteps).1 0 = preparedOf (initState .compound []) 0 :=
   preparedOf_history kfSteps _ (WF_of_wfB _ (by decide)) (ChainWF_initState _ _) 0 (by decide)
 
+/-! ## fix 33c5842: a user-supplied member list is taken as it is, whatever members it reuses -/
+
+/-- `Base = DateYYYYMMDD.using(); Base(); y, m, d = Base.field_schema;
+    Custom = Base.using(field_schema=[y, m, d.using(optional=True)]); Custom()` -/
+def reuseSteps : List Step :=
+  [.inst 0 [], .using 0 [(.attr .fieldSchema, .memberRefs [.inr (0, 0, none), .inr (0, 1, none), .inr (0, 2, some true)])],
+   .inst 1 []]
+
+/-- the custom class keeps [year, month, day'] — the members the prepared base generated are not
+    dropped (under 71fc8fd's marker rule the list became [day', month, day]) -/
+example : seqOf (run (initState .compound []) reuseSteps).1 1 .fieldSchema
+    = [.gen "year".toList "%04i".toList false, .gen "month".toList "%02i".toList false,
+       .gen "day".toList "%02i".toList true] := by decide
+
+/-- while a class that merely inherits the list the base's preparation built is regenerated from what
+    that preparation started from (nothing) with its own `optional` -/
+example : preparedOf (run (initState .compound []) [.inst 0 [], .using 0 [(.attr .optional, .bool true)]]).1 1
+    = [.gen "year".toList "%04i".toList true, .gen "month".toList "%02i".toList true,
+       .gen "day".toList "%02i".toList true] := by decide
+
 end Flatland.C06.Proofs
